@@ -339,7 +339,14 @@ func (c *Cluster) fetchOnce(b *Broker, r *Request, act *Action, totalMax int, ma
 			}
 			resp["HighWatermark"], resp["LastStableOffset"], resp["LogStartOffset"] = p.End, p.End, p.LogStart
 			var raw []byte
+			readCommitted := r.Version >= 4 && i64(r.Body, "IsolationLevel") == 1 && p.OpenTxnFrom > 0 && p.OpenTxnFrom < p.End
+			if readCommitted {
+				resp["LastStableOffset"] = p.OpenTxnFrom
+			}
 			fetchUnits(p, off, maxMagic, func(u unit) bool {
+				if readCommitted && u.end > p.OpenTxnFrom {
+					return false // a read_committed consumer is served up to the last stable offset only
+				}
 				budget := pmax - len(raw)
 				if tb := totalMax - total - len(raw); tb < budget {
 					budget = tb
